@@ -51,7 +51,9 @@ type Waiter interface {
 // LockModel is implemented by the vsync primitives.
 type LockModel interface {
 	CanAcquire(kind OpKind) bool
-	Acquire(kind OpKind)
+	// Acquire performs the model transition; it reports whether the lock is
+	// now held by the caller.
+	Acquire(kind OpKind) bool
 	Class() string // for the lock-order graph: creation-site independent class name (type of primitive)
 }
 
@@ -401,16 +403,17 @@ func Released(obj unsafe.Pointer) {
 //go:norace
 func applyOp(s *Sched, t *Thread, op *Op) {
 	switch op.Kind {
-	case OpLock, OpRLock, OpWLock:
-		op.LM.Acquire(op.Kind)
-		cls := op.LM.Class()
-		for _, h := range t.held {
-			if h.p != op.Obj {
-				s.LockEdges[LockEdge{h.class, cls}] = struct{}{}
+	case OpLock, OpRLock, OpWLock, OpWAnnounce:
+		if op.LM.Acquire(op.Kind) {
+			cls := op.LM.Class()
+			for _, h := range t.held {
+				if h.p != op.Obj && h.class != cls {
+					s.LockEdges[LockEdge{h.class, cls}] = struct{}{}
+				}
 			}
+			t.held = append(t.held, heldLock{op.Obj, cls, op.Kind == OpRLock})
 		}
-		t.held = append(t.held, heldLock{op.Obj, cls, op.Kind == OpRLock})
-	case OpWAnnounce, OpOnce, OpWGWait:
+	case OpOnce, OpWGWait:
 		op.LM.Acquire(op.Kind)
 	case OpSelect:
 		var ready []int
